@@ -472,7 +472,7 @@ class SymInterp(Interp):
                 return [(i, x) for i, x in enumerate(recv)]
             if m == "rev":
                 return list(reversed(recv))
-            if m == "zip":
+            if m in ("zip", "zip_eq"):
                 return list(zip(recv, args[0]))
             if m in ("first", "last"):
                 return (recv[0] if m == "first" else recv[-1]) if recv else None
